@@ -39,6 +39,10 @@ static void fill_fp()
     OP3("fnms", xs::fnms(x, y, z));
     OP2("min", xs::min(x, y));
     OP2("max", xs::max(x, y));
+    OP2("fmin", xs::fmin(x, y));
+    OP2("fmax", xs::fmax(x, y));
+    OP1("pos", xs::pos(x));
+    OP1("op_pos", +x);
     CMP1("isnan", xs::isnan(x));
     CMP1("isinf", xs::isinf(x));
     CMP1("isfinite", xs::isfinite(x));
